@@ -20,6 +20,8 @@ type Ctx struct {
 	R    *Report
 	Mod  *ModAnalysis
 	Tier string
+	mod2 *ModAnalysis
+	pag  *paginatedRoles
 }
 
 type property struct {
